@@ -896,9 +896,9 @@ def reach_floor(ctx):
         return
     s = ctx.stats
     need = {'impl_query:MolQuery': 300, 'impl_query:ReactionQuery': 50, 'impl_syntax': 1500, 'impl_reader': 400, 'impl_notimpl': 70}
-    low = {k: s.get(k, 0) for k, v in need.items() if s.get(k, 0) < v}
+    low = {k: s.get(k, 0) for k, v in need.items() if s.get(k, 0) < v // 2}     # under half of the recorded reach
     rules = len([k for k in s if k.startswith('impl_rule_')])
-    if rules < 60:
+    if rules < 45:
         low['distinct rules in accepted ASTs'] = rules
     reach = ctx.extra.get('coverage', {}).get('implementation_reach', {})
     # statement counts per file are reported in the evidence only (a harmless refactor changes them)
